@@ -23,7 +23,7 @@ func standaloneProduct(maxN int, visit func(idx int, sc *scen.Scenario, sig stri
 					}
 					for prep := 0; prep < 2; prep++ {
 						for post := 0; post < 3; post++ { // 0 action, 1 empty, 2 err
-							ns := scen.NodeSpec{Kind: kind, N: n, HasFB: fb != 0, ErrKind: idx % scen.NumErrKinds}
+							ns := scen.NodeSpec{Kind: kind, N: n, HasFB: fb != 0, ErrKind: idx % (scen.NumErrKinds + 1)} // incl. errors that wrap a context error
 							v := scen.Visit{PrepErr: prep == 1, FirstOK: k, FBErr: fb == 2, Post: "go", PostErr: post == 2}
 							if post == 1 {
 								v.Post = ""
@@ -62,6 +62,19 @@ func runC01(c *Cfg) {
 		r.Count("standalone.cases", 1)
 		if len(outs[0].Events) >= 4 && r.SampleWanted("standalone") {
 			r.Sample("standalone", map[string]any{"scenario": cases[i], "events": outs[0].Events, "action": outs[0].Action, "err": outs[0].ErrText})
+		}
+		// the lifecycle must also hold when the context is cancelled inside any callback: in particular post runs
+		// iff the exec phase produced a result, whatever happened to the context meanwhile
+		if i%2 == 0 {
+			for p := range outs[0].Events {
+				v := cases[i].Clone()
+				v.Inject = scen.Inject{Kind: []string{"cancel", "deadline"}[p%2], At: p}
+				vo, _ := judgeFor(c, "C01", "standalone-cancel", v)
+				r.Count("standalone.cancel_injections", 1)
+				if vo[0].CancelSeq >= 0 {
+					r.Nontrivial(fmt.Sprintf("sa-cancel:%s@%d", sigs[i], p))
+				}
+			}
 		}
 	})
 	r.Exhaustive = true
